@@ -86,11 +86,30 @@ def r3(ctx):
     nonempty = [(s, v) for s, v in rets if 'Iterator::collect' in v]
     empty = [(s, v) for s, v in rets if 'Iterator::collect' not in v]
     ctx.check('select|result-forms', len(nonempty) == 1 and len(empty) == 1, 'result forms: %s' % [v[:60] for _, v in rets], sample=[v[:80] for _, v in rets])
-    MAXT = r'^maxlow\{'
+    # the sweep's accumulators are found by role, not by name: the usize maxima are the locals updated with `cur` in the Start arm (low)
+    # and in the End arm (high); the f64 bounds are the locals updated with `*time` in the same arms
+    role = {}
+    for i, l in enumerate(b.locals):
+        if not (l.get('user') and l.get('name')) or l['ty'] not in ('usize', 'f64'):
+            continue
+        ds = [d for d in (b.defs().get(i) or []) if d[2] == 'assign']
+        if len(ds) != 2:
+            continue
+        upd = [d for d in ds if S(b.rvalue_term(d[3])) not in ('0', '0.0')]
+        if len(upd) != 1:
+            continue
+        arms = [a for a in ('Start', 'End') if b.must_pass(upd[0][0], fact_is(r'^\(?.*\)?\.1$|boundtype|\.1\b', [a]))]
+        val = S(b.rvalue_term(upd[0][3]))
+        if len(arms) == 1 and not re.search(r' [+-] 1\)$', val):
+            role[('count' if l['ty'] == 'usize' else 'time', 'low' if arms[0] == 'Start' else 'high')] = l['name']
+    ctx.check('select|sweep-accumulators', len(role) == 4, 'sweep accumulators by role: %s' % {'%s-%s' % k: v for k, v in role.items()}, sample={'%s-%s' % k: v for k, v in role.items()})
+    lo, hi = re.escape(role.get(('count', 'low'), '\0')), re.escape(role.get(('count', 'high'), '\0'))
+    tlo, thi = re.escape(role.get(('time', 'low'), '\0')), re.escape(role.get(('time', 'high'), '\0'))
+    MAXT = r'^%s\{' % lo
     for s, v in nonempty:
         ctx.guard(b, s, 'min-agreeing', fact_cmp('Ge', MAXT, r'^synchronization_config\.minimum_agreeing_sources$'), key='select|result|min-agreeing')
-        ctx.guard(b, s, 'strict-majority', fact_cmp('Gt', r'^\(maxlow\{.*\} \* 4\)$', r'^Vec::len\(Vec::with_capacity\('), key='select|result|strict-majority')
-        ctx.guard(b, s, 'bounds-agree', fact_cmp('Eq', MAXT, r'^maxhigh\{'), key='select|result|bounds-agree')
+        ctx.guard(b, s, 'strict-majority', fact_cmp('Gt', r'^\(%s\{.*\} \* 4\)$' % lo, r'^Vec::len\(Vec::with_capacity\('), key='select|result|strict-majority')
+        ctx.guard(b, s, 'bounds-agree', fact_cmp('Eq', MAXT, r'^%s\{' % hi), key='select|result|bounds-agree')
         ctx.check('select|result|pipeline', re.match(r'^Iterator::collect\(Iterator::copied\(Iterator::filter\(slice::iter\(candidates\), closure:', v) is not None,
                   'result is `%s`' % v[:160], s.where(), sample=v[:200])
     pushes = some(b.calls(r'Vec::push$'), 'bounds.push calls')
@@ -110,8 +129,8 @@ def r3(ctx):
             continue
         ctx.check('select|filter|last-conjunct', v == 'NtpLeapIndicator::is_synchronized(snapshot.leap_indicator)', 'filter result `%s`' % v, s.where(), sample=v)
         ctx.guard(c, s, 'radius-ok', fact_cmp('Le', r'^' + RADIUS + '$', r'^algo_config\.maximum_source_uncertainty$'), key='select|filter|radius-ok')
-        ctx.guard(c, s, 'overlap-high', fact_cmp('Le', r'^\(SourceSnapshot::offset\(snapshot\) - ' + RADIUS + r'\)$', r'^maxthigh\b'), key='select|filter|overlap-high')
-        ctx.guard(c, s, 'overlap-low', fact_cmp('Ge', r'^\(SourceSnapshot::offset\(snapshot\) \+ ' + RADIUS + r'\)$', r'^maxtlow\b'), key='select|filter|overlap-low')
+        ctx.guard(c, s, 'overlap-high', fact_cmp('Le', r'^\(SourceSnapshot::offset\(snapshot\) - ' + RADIUS + r'\)$', r'^%s\b' % thi), key='select|filter|overlap-high')
+        ctx.guard(c, s, 'overlap-low', fact_cmp('Ge', r'^\(SourceSnapshot::offset\(snapshot\) \+ ' + RADIUS + r'\)$', r'^%s\b' % tlo), key='select|filter|overlap-low')
     ib = P.body('ntp_proto::packet::NtpLeapIndicator::is_synchronized')
     isy = [v for _, v in ret_assigns(ib)]
     # `!matches!(self, Unsynchronized)`: the inner flag is 1 exactly on the `self is Unsynchronized` edge
